@@ -2,8 +2,8 @@ SPECIFICATION Spec
 CONSTANTS
   Part = "slice"
   MaxLen = 8
-  VMag = 10
-  Mixed = TRUE
+  VMag = 8
+  Mixed = FALSE
   Dump = TRUE
 INVARIANT ImplAgreesOffHazards
 INVARIANT HazardsConfined
